@@ -122,4 +122,57 @@ example : readAll [97, 44, 98, 10, 49, 10] = .error .fieldCount := by decide
 example : hasDup [[97], [98], [97]] = true := by decide
 example : readAll [] = .ok [] := by decide
 
+/-- the rule produces only two kinds of cell: a float64 or a (trimmed) text — never an int, a bool or nil -/
+theorem typeCell_kinds (ω : Oracle) (s : Str) :
+    (∃ v, typeCell ω s = .flt false v) ∨ (∃ t, typeCell ω s = .str t) := by
+  cases h : ω.parseFloat (ω.trim s) with
+  | some v => exact .inl ⟨v, by simp [typeCell, h]⟩
+  | none => exact .inr ⟨ω.trim s, by simp [typeCell, h]⟩
+
+private theorem mem_insertStr' {k y : Str} {ns : List Str} (h : y ∈ Spec.insertStr k ns) : y = k ∨ y ∈ ns := by
+  induction ns with
+  | nil => simpa [Spec.insertStr] using h
+  | cons x xs ih =>
+    unfold Spec.insertStr at h
+    split at h
+    · exact .inr h
+    · split at h
+      · rcases List.mem_cons.mp h with h | h
+        · exact .inl h
+        · exact .inr h
+      · rcases List.mem_cons.mp h with h | h
+        · exact .inr (List.mem_cons.mpr (.inl h))
+        · rcases ih h with h | h
+          · exact .inl h
+          · exact .inr (List.mem_cons.mpr (.inr h))
+
+private theorem mem_foldl' {y : Str} (ks : List Str) {ns : List Str}
+    (h : y ∈ ks.foldl (fun acc k => Spec.insertStr k acc) ns) : y ∈ ks ∨ y ∈ ns := by
+  induction ks generalizing ns with
+  | nil => exact .inr h
+  | cons k ks ih =>
+    rcases ih h with h | h
+    · exact .inl (List.mem_cons.mpr (.inr h))
+    · rcases mem_insertStr' h with h | h
+      · exact .inl (List.mem_cons.mpr (.inl h))
+      · exact .inr h
+
+/-- hence every cell of every imported frame is a float64 or a text -/
+theorem fromCSV_cell_kinds (ω : Oracle) (bytes : List UInt8) (f : Frame) (h : fromCSV ω bytes = .ok f) :
+    ∀ name col, name ∈ f.keys → f.get? name = some col →
+      ∀ c ∈ col.data, (∃ v, c = .flt false v) ∨ (∃ t, c = .str t) := by
+  obtain ⟨hdr, recs, _, _, _, _, hk, hcols⟩ := fromCSV_ok_spec ω bytes f h
+  intro name col hmem hg c hc
+  rw [hk] at hmem
+  have hin : name ∈ hdr := by
+    rcases mem_foldl' hdr hmem with h | h
+    · exact h
+    · simp at h
+  obtain ⟨j, hj⟩ := List.getElem?_of_mem hin
+  have := hcols j name hj
+  rw [hg] at this
+  cases this
+  obtain ⟨r, _, rfl⟩ := List.mem_map.mp hc
+  exact typeCell_kinds ω _
+
 end Goframe.C10
